@@ -132,15 +132,20 @@ def check_case(ctx, out, desc, exact, origin):
                       impl=dict(pot=str(pot), i=str(i)), desc=desc)
         return
     res = drv.call('spec_circuit', net=jnet, report=report)
-    scale = max([abs(x) for x in list(pot.values()) + list(v.values()) + list(i.values())] + [1.0])
-    ymax = gen_net.ymax_json(jnet)
-    tol = 1e-9 * scale * max(1.0, ymax)
+    scale = max([abs(x) for x in list(pot.values()) + list(v.values()) + list(i.values())] + [1e-300])
+    # purely relative tolerance: each residual against the exact magnitude of its own terms
     bad = {}
     if abs(core.cfloat(res['ref'])) > 0: bad['ref'] = res['ref']
+    allm = {grp: {k: float(core.unq(m)) for k, m in res[grp + '_mag'].items()} for grp in ('volt', 'law', 'kcl')}
+    gv = max(list(allm['volt'].values()) + [0.0])
+    gi = max(list(allm['kcl'].values()) + [gen_net.ymax_json(jnet) * gv])
+    floors = dict(volt=1e-12 * gv, kcl=1e-12 * gi, law=1e-12 * max(list(allm['law'].values()) + [gv, gi]))
     for grp in ('volt', 'law', 'kcl'):
+        mags = allm[grp]
+        floor = floors[grp]     # rounding noise at the problem's own scale (covariant under rescaling the sources)
         for k, r in res[grp].items():
-            if abs(core.cfloat(r)) > tol:
-                bad[f'{grp}:{k}'] = abs(core.cfloat(r))
+            if abs(core.cfloat(r)) > max(1e-9 * mags[k], floor):
+                bad[f'{grp}:{k}'] = (abs(core.cfloat(r)), mags[k])
     if bad:
         clause = sorted({k.split(':')[0] for k in bad})
         badkinds = sorted({res['kinds'][k.split(':', 1)[1]] for k in bad if k.startswith('law:')})
@@ -150,25 +155,27 @@ def check_case(ctx, out, desc, exact, origin):
         return
     # power = V·conj(I)
     for k in v:
-        if not core.close(p[k], v[k] * np.conj(i[k]), scale * scale, 1e-12):
+        if not core.rclose(p[k], v[k] * np.conj(i[k]), 0.0, 1e-12):
             out.spec_fail(dict(canon_base, symptom='power'), 'power ≠ V·conj(I)', gen_net.pretty(desc),
                           impl=dict(p=str(p[k]), v=str(v[k]), i=str(i[k])), desc=desc)
             return
     # ---- unique exact solution (spec tableau) vs reported values
     for n, val in wp['pot'].items():
-        if n in pot and not core.close(pot[n], core.cfloat(val), scale, 1e-7):
+        if n in pot and not core.rclose(pot[n], core.cfloat(val), scale, 1e-7):
             out.spec_fail(dict(canon_base, symptom='not_the_solution'), f'potential of {n!r} differs from the exact solution',
                           gen_net.pretty(desc), impl=dict(value=str(pot[n])), spec=dict(exact=val), desc=desc)
             return
     # ---- correspondence on the accessors, fed with numpy's own vector
     x_py = [core.qc(z) for z in np.asarray(sol._solution_vector, dtype=complex)]
     acc = drv.call('access', net=jnet, x=x_py)
+    iscale = max(scale, gen_net.ymax_json(jnet) * scale)
+    pscale = scale * iscale
     for e in acc['pot']:
-        if 'ok' not in e['v'] or not core.close(pot[e['n']], core.cfloat(e['v']['ok']), scale, 1e-12):
+        if 'ok' not in e['v'] or not core.rclose(pot[e['n']], core.cfloat(e['v']['ok']), scale, 1e-12):
             out.disagree('access.potential', gen_net.pretty(desc), str(pot[e['n']]), e['v'])
     for e in acc['br']:
         for key, impl_val in (('v', v), ('i', i), ('p', p)):
-            if 'ok' not in e[key] or not core.close(impl_val[e['id']], core.cfloat(e[key]['ok']), scale * (scale if key == 'p' else 1), 1e-11):
+            if 'ok' not in e[key] or not core.rclose(impl_val[e['id']], core.cfloat(e[key]['ok']), pscale if key == 'p' else (iscale if key == 'i' else scale), 1e-11):
                 out.disagree('access.' + key, gen_net.pretty(desc), str(impl_val[e['id']]), e[key], id=e['id'])
     out.traces_validated += 1
     out.sample(gen_net.pretty(desc))
